@@ -315,6 +315,11 @@ func (db *Backend) GetObject(bucketName, objectName string, rangeRequest *gofake
 			return gofakes3.KeyNotFound(objectName)
 		}
 
+		// bson.Unmarshal keeps references into v for the byte slices (contents
+		// and hash), but v points into bolt's memory map and is only valid
+		// until the transaction ends:
+		v = append([]byte(nil), v...)
+
 		if err := bson.Unmarshal(v, &t); err != nil {
 			return fmt.Errorf("gofakes3: could not unmarshal object at %q/%q: %v", bucketName, objectName, err)
 		}
